@@ -1,4 +1,5 @@
-//! C16: ear clipping (`TriMesh::from_polygon`) and Hertel–Mehlhorn (`hertel_mehlhorn_idx`).
+//! C16: ear clipping (`TriMesh::from_polygon`), Hertel–Mehlhorn (`hertel_mehlhorn_idx`, `hertel_mehlhorn`) and the
+//! `Compound::decompose_trimesh` glue (`ConvexPolygon::from_convex_polyline`), all through the public API.
 use crate::util::*;
 use crate::p2::shape::TriMesh;
 use crate::p2::transformation::{hertel_mehlhorn, hertel_mehlhorn_idx};
